@@ -481,6 +481,134 @@ fn part2_api(spec: &RuleSpec, depth: usize) -> Stats {
     st
 }
 
+/// part 2e: histories of *loads* on one thread. Loading is a pure function of the text, so the
+/// outcome of loading a text (the printed rule and a verdict, or the error message) must not depend
+/// on which texts - accepted or rejected - were loaded on the same thread before. The alphabet has
+/// rejected texts of several kinds (an error deep inside brackets, an unknown identifier, a bad
+/// token, invalid YAML, a non-predicate operand) and accepted texts at the documented nesting bound
+/// (63 nested parentheses / negations), so that a guard or a counter that is not restored on an
+/// error path shows after one failed load.
+pub fn load_history_texts() -> Vec<(&'static str, String)> {
+    let rule = |c: &str| format!("detection:\n  A: {{f: 'a*'}}\n  B: {{g: x}}\n  C: {{n: {{x: a}}}}\n  condition: {}\ntrue_positives: []\ntrue_negatives: []\n", c);
+    let deep_ok = format!("{}A{}", "(".repeat(63), ")".repeat(63));
+    let deep_not = format!("{}A", "not ".repeat(63));
+    let deep_mixed = format!("{}A and B{} or C", "(not (".repeat(31), "))".repeat(31));
+    vec![
+        ("ok: (A and B) or (not C)", rule("(A and B) or (not C)")),
+        ("ok: 63 nested parentheses", rule(&deep_ok)),
+        ("ok: 63 nested nots", rule(&deep_not)),
+        ("ok: 31 x (not ( .. )) or C", rule(&deep_mixed)),
+        ("ok: all(A) and of(B, 1) and int(f) == 1", rule("all(A) and of(B, 1) and int(f) == 1")),
+        ("rejected: (A and (B or ))", rule("(A and (B or ))")),
+        ("rejected: ((((A and ) and B) and C) and A)", rule("((((A and ) and B) and C) and A)")),
+        ("rejected: not (not (not (X)))", rule("not (not (not (X)))")),
+        ("rejected: (A and 1)", rule("(A and 1)")),
+        ("rejected: all((A or", rule("all((A or")),
+        ("rejected: 40 open parentheses then an error", rule(&format!("{}A and and{}", "(".repeat(40), ")".repeat(40)))),
+        ("rejected: invalid yaml", "detection: [\n  condition: {".to_string()),
+        ("rejected: identifier is a scalar", "detection:\n  A: 1\n  condition: (A)\ntrue_positives: []\ntrue_negatives: []\n".to_string()),
+    ]
+}
+
+fn load_outcome(text: &str) -> String {
+    let d0 = MObj::new().with("f", crate::mdoc::s("ab")).with("g", crate::mdoc::s("x"));
+    let d1 = MObj::new().with("n", crate::mdoc::obj(vec![("x", crate::mdoc::s("b"))]));
+    match crate::report::catch(|| Rule::from_str(text)) {
+        Ok(Ok(r)) => format!("loaded {} {:?} {:?}", eng::canon(&r).len(), eng::matches(&r, &d0), eng::matches(&r, &d1)),
+        Ok(Err(e)) => format!("error {}", e),
+        Err(p) => format!("PANIC {}", p),
+    }
+}
+
+/// re-executes one recorded load history on a fresh thread (used by --replay)
+pub fn replay_load_history(ops: &[u8]) {
+    let texts = load_history_texts();
+    let ops = ops.to_vec();
+    let _ = std::thread::Builder::new()
+        .stack_size(8 << 20)
+        .spawn(move || {
+            for op in ops {
+                let (name, text) = &texts[op as usize % texts.len()];
+                let t2 = text.clone();
+                let fresh = std::thread::Builder::new().stack_size(8 << 20).spawn(move || load_outcome(&t2)).unwrap().join().unwrap_or_default();
+                println!("load [{}]\n   -> {}\n   first thing on a fresh thread: {}", name, load_outcome(text), fresh);
+            }
+        })
+        .unwrap()
+        .join();
+}
+
+pub fn part2_loads(depth: usize) -> Stats {
+    let texts = load_history_texts();
+    let n = texts.len() as u64;
+    // reference: each text loaded first thing on a fresh OS thread
+    let reference: Vec<String> = texts
+        .iter()
+        .map(|(_, t)| {
+            let t = t.clone();
+            std::thread::Builder::new().stack_size(8 << 20).spawn(move || load_outcome(&t)).unwrap().join().unwrap_or_else(|_| "thread".into())
+        })
+        .collect();
+    let mut seqs: Vec<Vec<u8>> = vec![];
+    for len in 1..=depth {
+        for i in 0..n.pow(len as u32) {
+            let mut m = i;
+            let mut seq = vec![0u8; len];
+            for o in seq.iter_mut() {
+                *o = (m % n) as u8;
+                m /= n;
+            }
+            seqs.push(seq);
+        }
+    }
+    let parts: Vec<Stats> = seqs
+        .par_chunks(64)
+        .map(|chunk| {
+            let mut st = Stats::default();
+            for seq in chunk {
+                let (tx, rf, sq) = (texts.clone(), reference.clone(), seq.clone());
+                // every sequence on its own fresh OS thread: thread-local state starts empty
+                let bad = std::thread::Builder::new()
+                    .stack_size(8 << 20)
+                    .spawn(move || {
+                        for (k, op) in sq.iter().enumerate() {
+                            let got = load_outcome(&tx[*op as usize].1);
+                            if got != rf[*op as usize] {
+                                return Some((k, got));
+                            }
+                        }
+                        None
+                    })
+                    .unwrap()
+                    .join()
+                    .unwrap_or(Some((0, "thread died".into())));
+                st.transitions += seq.len() as u64;
+                st.evaluations += 1;
+                st.traces += 1;
+                if let Some((k, got)) = bad {
+                    let names: Vec<&str> = seq.iter().map(|o| texts[*o as usize].0).collect();
+                    let op = seq[k] as usize;
+                    st.push_violation(Violation {
+                        signature: format!("outcome-of-loading-a-text-depends-on-earlier-loads-on-the-thread:{}", if reference[op].starts_with("loaded") { "accepted-text" } else { "rejected-text" }),
+                        witness: format!("after loading {:?} on one thread, loading [{}] gives {} ; first thing on a fresh thread it gives {}", &names[..k], names[k], got.chars().take(160).collect::<String>(), reference[op].chars().take(160).collect::<String>()),
+                        replay: json!({"kind":"load-history","ops":seq,"op_names":names}),
+                    });
+                }
+            }
+            st
+        })
+        .collect();
+    let mut st = Stats::default();
+    for p in parts {
+        st.merge(p);
+    }
+    st.states += reference.iter().collect::<BTreeSet<_>>().len() as u64;
+    st.count("load_history_sequences", seqs.len() as u64);
+    st.count("load_history_texts_accepted", reference.iter().filter(|r| r.starts_with("loaded")).count() as u64);
+    st.count("load_history_texts_rejected", reference.iter().filter(|r| r.starts_with("error")).count() as u64);
+    st
+}
+
 /// re-executes one recorded API history (used by --replay)
 pub fn replay_api_history(yaml: &str, sw: u8, docs: &[MObj], ops: &[u8]) {
     let rule = match eng::load(yaml).ok().and_then(|r| eng::optimise_with(&r, sw, &[]).ok()) {
@@ -1187,6 +1315,8 @@ pub fn run(tier: Tier) -> i32 {
         rep.stats.merge(p);
     }
     rep.stats.count("part2b_rules", api_specs.len() as u64);
+    // part 2e: histories of loads (accepted and rejected texts) on one thread
+    rep.stats.merge(part2_loads(if th { 4 } else { 3 }));
     // part 2c: sequences of optimise calls on one thread
     let mut seq_rules: Vec<(String, Vec<MObj>)> = vec![];
     for sp in api_specs.iter().step_by(if th { 1 } else { 2 }) {
